@@ -1,5 +1,6 @@
 import Driver.Proto
 import Driver.GenDispatch
+import Driver.GenDispatchP
 import Driver.Hand
 
 open Driver
@@ -23,6 +24,9 @@ def handle (line : String) : String :=
       | none =>
         match genDispatchLong fn args.toArray with
         | some ws => if ws.isEmpty then "ok" else "ok " ++ fmtWords ws
+        | none =>
+        match genDispatchP fn args with      -- functions of the extended-translator modules (fuel / Option)
+        | some s => s
         | none =>
         match handDispatch fn args with
         | some s => s
